@@ -48,10 +48,12 @@ VALSIZES = [0, 1, 100, 8191, 8192, 8193, 70000]
 
 def plan(tier, seed):
     specs = []
-    n = 40 if tier == "quick" else 400
+    n = 40 if tier == "quick" else 128
     for i in range(n):
+        # thorough: every byte offset of every record up to 8193-byte values; 70 kB values every byte in one chunk of 8
         specs.append({"kind": "prefix", "chunk": i, "via": ["ukv", "coll"][i % 2],
-                      "bufsize": [-1, 0, 4096, 10**6][(i // 2) % 4], "full": tier == "thorough"})
+                      "bufsize": [-1, 0, 4096, 10**6][(i // 2) % 4],
+                      "full": 0 if tier == "quick" else (70000 if i % 8 == 7 else 9000)})
     nk = 8 if tier == "quick" else 64
     for i in range(nk):
         specs.append({"kind": "sigkill", "chunk": i, "n": 3 if tier == "quick" else 6})
@@ -175,7 +177,7 @@ def offsets_for(before_len, sess, full):
                 region = "key"
             else:
                 region = "value"
-            if not full and region == "value" and len(v) > 300:
+            if region == "value" and len(v) > max(300, full):
                 rel = off - key_end
                 if not (rel < 12 or len(v) - rel < 12 or rel % 211 == 0 or off % 8192 < 3 or off % 8192 > 8189):
                     continue
@@ -414,7 +416,7 @@ def run_prefix(spec, ctx):
                  clean_end + (off * 7919) % max(span, 1)}
         for off2 in sorted(p for p in picks if clean_end < p < len(rec_after)):
             rec_sample += 1
-            if not spec["full"] and rec_sample % 3:
+            if rec_sample % 3:
                 continue
             img.write_bytes(rec_after[:off2])
             shown3 = J.read_image(img, via)
